@@ -3,6 +3,7 @@ import re
 
 T = "RsslVerif.Thm.C03."
 TX = "RsslVerif.Thm.C03X."
+TD = "RsslVerif.Thm.C03D."
 
 NONCONST = set("vrkun")
 
@@ -13,6 +14,9 @@ def nontrivial(req, obs):
         return True
     if f[0] in ("C03.type", "C03.typex"):
         return obs.count(" ") >= 1            # at least two typed nodes
+    if f[0] == "C03.decl":
+        # a named type carrying a modifier, or a modifier at the use site, and a declaration the checker accepts
+        return len(f) == 7 and (f[3] not in ("-", "0") or f[4] != "-") and obs.startswith("decl ")
     if f[0] == "C03.progx":
         return len(f) >= 7 and any(k in f[5] for k in ("(un ", "(bin ", "(tern ", "(call ", "(icall ", "(mem ", "(idx ", "(ctor ",
                                                        "(ret ", "(decl ", "(if ", "(for ", "(while "))
@@ -107,6 +111,24 @@ def finding_key(req, obs, detail):
 def shrink(req):
     """replace the statement's expression by one of its sub-expressions (as an expression statement)"""
     f = req.split("\t")
+    if f[0] == "C03.decl" and len(f) == 7:
+        layers = [] if f[3] == "-" else f[3].split(",")
+        for i in range(len(layers)):
+            rest = layers[:i] + layers[i + 1:]
+            yield "\t".join(f[:3] + [",".join(rest) if rest else "-"] + f[4:])
+            if len(layers[i]) > 1:
+                for j in range(len(layers[i])):
+                    yield "\t".join(f[:3] + [",".join(layers[:i] + [layers[i][:j] + layers[i][j + 1:]] + layers[i + 1:])] + f[4:])
+        if f[4] != "-":
+            for j in range(len(f[4])):
+                yield "\t".join(f[:4] + [(f[4][:j] + f[4][j + 1:]) or "-"] + f[5:])
+        if f[2] != "td":
+            yield "\t".join(f[:2] + ["td"] + f[3:])
+        if f[5] != "local":
+            yield "\t".join(f[:5] + ["local", f[6]])
+        if f[1] != "s.Float32":
+            yield "\t".join([f[0], "s.Float32"] + f[2:])
+        return
     if f[0] == "C03.progx" and len(f) == 7:
         s = f[5]
         starts = []
@@ -168,6 +190,23 @@ def search(ctx):
         for t in VARS:
             reqs.append("C03.prog\t%s\t-/s.Float32\t(init %s %s)\tany" % (env, t, x))
     reqs += search_ext()
+    reqs += search_decl()
+    return reqs
+
+
+def search_decl():
+    """declared types: every keyword carried by a typedef / a typedef of a typedef / a template argument x every single
+    keyword and `const volatile` at the use site x storage x write form, on a float scalar, a float matrix and a struct"""
+    reqs = []
+    kws = ["c", "v", "r", "k", "u", "n"]
+    for base in ("s.Float32", "m.Float32.2.2", "o.0"):
+        for chain in ["-"] + kws + [k + ",0" for k in kws] + ["0," + k for k in kws] + ["c,v", "v,c", "c,r", "c,u"]:
+            for use in ["-"] + kws + ["cv", "vc"]:
+                for storage in ("local", "param", "static", "member", "elem"):
+                    for write in ("assign", "inc", "out", "comp"):
+                        reqs.append("C03.decl\t%s\ttd\t%s\t%s\t%s\t%s" % (base, chain, use, storage, write))
+                    if storage != "static":
+                        reqs.append("C03.decl\t%s\ttp\t%s\t%s\t%s\tassign" % (base, chain, use, storage))
     return reqs
 
 
@@ -209,8 +248,8 @@ def search_ext():
 
 SPEC = {
     "id": "C03",
-    "gens": ["RankTable", "TypingTables", "IntrinsicSigs", "ElabTables"],
-    "lean_modules": ["RsslVerif.Thm.C03", "RsslVerif.Thm.C03X"],
+    "gens": ["RankTable", "TypingTables", "IntrinsicSigs", "ElabTables", "TypeMods"],
+    "lean_modules": ["RsslVerif.Thm.C03", "RsslVerif.Thm.C03X", "RsslVerif.Thm.C03D"],
     "theorems": [T + n for n in [
         "find_sound", "find_rejects_rvalue_to_lvalue", "find_keeps_const",
         "elab_sound", "elab_debug_check_redundant", "elabStmt_sound", "ids_in_range",
@@ -243,7 +282,12 @@ SPEC = {
         "assignment_operands", "binary_operands_equal", "binop_rules",
         "elab_assign_exact", "elab_arith_exact", "elab_call_args_exact", "elab_intrinsic_call_exact",
         "resource_index_widths", "resource_element_constness",
-        "swizzle_in_range", "matrix_swizzle_in_range", "member_of_struct", "ctor_slots_exact"]],
+        "swizzle_in_range", "matrix_swizzle_in_range", "member_of_struct", "ctor_slots_exact"]] + [TD + n for n in [
+        # declared types: the modifiers of a typedef / template parameter and the modifiers written at the use site
+        "parse_type_for_usage_as_modelled", "mergeModifiers_flag", "declared_modifier_is_union_of_layers",
+        "typedef_const_survives_use_site_modifiers", "typedef_modifiers_survive_use_site_modifiers",
+        "struct_member_const_comes_from_the_type", "declared_modifier_consistent", "conflicting_modifiers_rejected",
+        "typedef_const_write_rejected", "mutant_discipline_drops_typedef_const"]],
     "harness": "c03",
     "nontrivial": nontrivial,
     "finding_key": finding_key,
@@ -268,6 +312,16 @@ SPEC = {
                   "assignment, the operand of every accepted ++/-- and every out/inout argument of an accepted call is a mutable "
                   "place (itself and every object on the way to the variable is a non-const lvalue under the IR's typing judgment), "
                   "hence never the result of a conversion; vector / matrix operators are never done in an untyped literal kind. "
+                  "Declared types: for the model of parse_type_for_usage's modifier handling (parse_type_modifier's keyword "
+                  "loop with its conflict / matrix / float / position checks, TypeModifier::combine, typedef chains of any "
+                  "length, struct-template type arguments, every declaration position) the declared type carries a modifier "
+                  "iff some typedef layer, the template argument or the use site writes it — a typedef's const (row_major, "
+                  "unorm, ...) survives whatever else is written at the use site —, no accepted declaration is both row_major "
+                  "and column_major or both unorm and snorm wherever the two keywords meet, and composed with the write "
+                  "theorems: an object declared through a const typedef is never an accepted assignment / ++ / -- target. The "
+                  "source statements that merge the named type's modifier with the written one, the fields of combine and "
+                  "the keyword arms are re-extracted (Gen.TypeMods) and re-decided against the model's behaviour "
+                  "(parse_type_for_usage_as_modelled); the discipline of seeded mutant C03-5 is a decide-checked negation witness. "
                   "Where the full statement is false on the code the negation is a decide-checked witness replayed on the "
                   "implementation: a scalar / vector swizzle may name more than four components.",
     "rule": "C03.conv = one row of the exhaustive find/get_target_type table over 8 scalar kinds x {scalar, vec1-4, 2 matrices} "
@@ -286,6 +340,13 @@ SPEC = {
             "returns at several nesting depths; random statement trees and expressions. Accepted modules are walked node by "
             "node (get_type under guard + exactness oracle + declaration-based write oracle). C03.type / C03.typex = the typed "
             "expression the real checker produced, re-typed node by node by the real get_type and by the model's typeOf. "
+            "C03.decl = (type below the modifiers, typedef chain or struct-template parameter over a typedef chain with a keyword "
+            "list per layer, keyword list at the use site, storage: local / parameter / static global / struct member / array "
+            "element, write form: none / read / = / += / ++ / out argument / component / element) spelled as an RSSL program; "
+            "observation = declaration verdict, modifier of the registered type of the object, verdict of the write; the oracle "
+            "decides constness from the keywords of the request alone (const on any layer or at the use site) and fails every "
+            "accepted write to such an object: each keyword carried by a typedef x 8 use-site sets x 5 storages x 4 write forms on "
+            "6 base types, 37 chains x 20 use-site sets with both carriers, and random points of the whole product. "
             "C03.src = a raw program (reproducers with buffers / cbuffers), oracle only. non-trivial = a statement containing an "
             "operator, call, projection, constructor, definition or control statement.",
     "trusted_base": [
@@ -296,7 +357,13 @@ SPEC = {
         "literal re-tagging tables of ImplicitConversion::apply, the literal-kind remap of vector / matrix operators, the pinned call "
         "sites and bodies of check_mutable_place / check_output_arguments; IntrinsicSigs: the INTRINSICS table expanded as add_intrinsics "
         "registers it; ElabTables: the swizzle character tables and the arm lists of member access / subscript / aggregate "
-        "initialiser) — re-run on /repo's working tree every time",
+        "initialiser; TypeMods: the statements of parse_type_for_usage around the modifier merge, the fields and operator of "
+        "TypeModifier::combine, per keyword arm of parse_type_modifier the field set, the conflicting fields, the requirement, "
+        "the denying positions and the errors) — re-run on /repo's working tree every time",
+        "hand-written Model/TypeMods.lean (parse_type_modifier, the merge, typedef chains, the const denial of parse_struct) — "
+        "tied by Thm.C03D.parse_type_for_usage_as_modelled (the re-extracted rows equal the rows obtained by probing the model) "
+        "and by the C03.decl correspondence; the write verdict of a C03.decl request is the extended elaboration model's on the "
+        "equivalent C03.progx program whose variable has the merged type",
         "hand-written Model/Conv.lean (find, get_target_type), Model/Ty.lean, Model/IrTyping.lean + IrTypingX.lean (get_type), "
         "Model/Elab.lean + ElabX.lean (parse_expr_*, apply, member access, read_matrix_subscript, subscripts, constructors, "
         "check_mutable_place / check_output_arguments / TypeRegistry::is_const: written from source copies the translator pins "
@@ -306,6 +373,8 @@ SPEC = {
         "Spec/ElabX.lean (StmtsTyped, InitTyped, RetExact, projection chains; MutablePlace / ConstTy / ProjOf) is our reading of "
         "'every initialiser, return ... receives operands of exactly the types it requires' and of 'write to const or non-lvalue "
         "expressions'",
+        "the C03.decl oracle (harness/src/c03/decl.rs) reads constness off the keywords written in the request (typedef layers, "
+        "template argument, use site), never off a type the checker registered",
         "the harness oracle (harness/src/c03.rs: check rules of Walk::expr, the declaration-based write oracle Walk::place) is "
         "our reading of 'exactly the types it requires' and of 'write to const or non-lvalue expressions'",
     ],
@@ -316,6 +385,11 @@ SPEC = {
         "modes and prove that this query never fires",
         "outside the model (answered `unsupported`, reached by the IR walk only): objects other than the subscript of "
         "buffers / textures (ConstantBuffer, samplers, `.mips`, RayDesc), methods, templates (DispatchMesh), enums inside operators, sizeof, case labels that are not literals",
+        "declared types: typedefs of array types (`typedef const float CA[2]`), function-template type arguments (they are "
+        "stripped of all modifiers by normalize_template_type: `w<const float>()` instantiates `w<float>`), storage-class / "
+        "in-out / interpolation / precise keywords next to type modifiers, cbuffer members and return types are not generated "
+        "by C03.decl; Walk::place still reads the registered type of a variable for programs of the other streams (they "
+        "declare every type directly, where registered type = written type is what C03.decl checks with an empty chain)",
         "variables of the generated programs have unique names v<i>; a definition declares one variable; user function "
         "parameters are not arrays",
         "signature parameter types carry no modifier: strip_param_type is mirrored by ElabX.stripParamType (applied by the "
